@@ -2148,6 +2148,7 @@ func (m *Machine) processQueue() Result {
 	// a caller which lost the CAS after the loop's last length check has left
 	// its mutation in the queue, pick it up
 	if m.queueLen.Load() > 0 && !m.disposing.Load() {
+		verifPoint(m, "pq:recheck")
 		m.processQueue()
 	}
 
